@@ -267,6 +267,29 @@ def handleValop (fields : List String) : String :=
     | _, _ => "BADREQ values"
   | _ => "BADREQ fields"
 
+/-- `DISPLAY <value tokens>`: `format!("{}", v)` → `TEXT <hex>` | `SKIP <why>`;
+`DEBUG <value tokens>`: `format!("{:?}", v)` → `TEXT <hex>` -/
+def handleDisplay (fields : List String) : String :=
+  match fields with
+  | v :: _ =>
+    match pValue (toks v) with
+    | some (x, []) =>
+      match Value.display x with
+      | .ok s => "TEXT " ++ hexOfString s
+      | .err k => "ERR " ++ k
+      | .panic p => "PANIC " ++ p
+      | .unmodelled w => "SKIP " ++ w
+    | _ => "BADREQ value"
+  | _ => "BADREQ fields"
+
+def handleDebug (fields : List String) : String :=
+  match fields with
+  | v :: _ =>
+    match pValue (toks v) with
+    | some (x, []) => "TEXT " ++ hexOfString (Value.debugText x)
+    | _ => "BADREQ value"
+  | _ => "BADREQ fields"
+
 def showOutcomeF64 : Outcome F64 → String
   | .ok f => "F" ++ pad16 f.toBits
   | .err k => "ERR " ++ k
@@ -341,6 +364,8 @@ def handle (line : String) : String :=
   | "PRINT" :: rest => Ag.OutProto.handlePrint rest
   | "RUNMODE" :: rest => handleRunMode rest
   | "VALOP" :: rest => handleValop rest
+  | "DISPLAY" :: rest => handleDisplay rest
+  | "DEBUG" :: rest => handleDebug rest
   | "NUMSTR" :: rest => handleNumstr rest
   | "EVAL" :: rest => handleEval rest
   | "F64" :: rest => handleF64 rest
